@@ -349,7 +349,7 @@ def run_real(script):
         child = pool[call["c"]]
         before = snapshot(parent, ids)
         members = [(m.get_name(), m.get_data_type(), m.get_container()) for m in type(parent)._get_members()]
-        slot_before = dict((n, vars(parent).get(n)) for n, _d, _c in members)
+        slot_before = dict((n, vars(parent)[n]) for n, _d, _c in members if n in vars(parent))
         list_before = dict((n, list(v)) for n, v in slot_before.items() if isinstance(v, list))
         ret, exc, tags = None, None, []
         try:
@@ -374,7 +374,8 @@ def run_real(script):
         recs.append({"rec": rec, "gone": gone, "pv": pv, "ret_is_child": ret is child, "exc": exc,
                      "members": members, "slot_before": slot_before, "list_before": list_before,
                      "switch_ok": switch_after == call["en"], "child": child, "parent": parent,
-                     "after": dict((n, vars(parent).get(n)) for n, _d, _c in members)})
+                     "after": dict((n, (list(vars(parent).get(n)) if isinstance(vars(parent).get(n), list)
+                                        else vars(parent).get(n))) for n, _d, _c in members)})
         line["calls"].append({"c": call["c"], "hint": call["hint"], "force": call["force"], "en": call["en"],
                               "val": call["val"], "pv": bool(pv)})
     return line, recs
